@@ -20,19 +20,19 @@ const ModPath = "github.com/openkruise/rollouts"
 // Program is the loaded, type-checked and SSA-built repository.
 type Program struct {
 	addrTaken map[*ssa.Function]bool
-	Dir      string
-	Fset     *token.FileSet
-	Roots    []*packages.Package // repository packages
-	All      []*packages.Package // roots + deps (deps have syntax only in whole-program mode)
-	SSA      *ssa.Program
-	Whole    bool
-	byPath   map[string]*packages.Package
-	ssaPkg   map[string]*ssa.Package
-	repoFns  []*ssa.Function
-	allFns   map[*ssa.Function]bool
-	fnByName map[string]*ssa.Function
-	cgi      *cgIndex
-	overlay  map[string][]byte
+	Dir       string
+	Fset      *token.FileSet
+	Roots     []*packages.Package // repository packages
+	All       []*packages.Package // roots + deps (deps have syntax only in whole-program mode)
+	SSA       *ssa.Program
+	Whole     bool
+	byPath    map[string]*packages.Package
+	ssaPkg    map[string]*ssa.Package
+	repoFns   []*ssa.Function
+	allFns    map[*ssa.Function]bool
+	fnByName  map[string]*ssa.Function
+	cgi       *cgIndex
+	overlay   map[string][]byte
 }
 
 // Load loads /repo (dir). whole=true loads syntax of all dependencies too
